@@ -3,7 +3,9 @@
 // `mod $name { .. }` the crate's own macro generates, so `Histogram`, `LEN` and the private fields
 // `range` / `bin` are the real ones.  One instantiation per LEN (see props/*.py).
 
-use crate::{Histogram as HistTrait, Merge, InvalidRangeError, SampleOutOfRangeError};
+use crate::{Histogram as HistTrait, Merge};
+// InvalidRangeError / SampleOutOfRangeError are imported by the including wrapper (crate:: for the macro version,
+// the module's own types for histogram_const.rs)
 
 // is_valid(): exactly what from_ranges accepts (C12 proves that equivalence): no NaN, non-decreasing.
 fn valid_edges(r: &[f64; LEN + 1]) -> bool {
